@@ -163,7 +163,7 @@ class Res:
         s.paths += 1; s.steps += m.steps; s.queries += m.nqueries; s.solver_s += m.tsolve
         for k, v in m.calls.items(): s.funcs[k] = s.funcs.get(k, 0) + v
 
-def timed_check(sol, res, timeout_ms=60000):
+def timed_check(sol, res, timeout_ms=240000):
     sol.set('timeout', timeout_ms)
     t0 = time.time(); r = sol.check(); res.queries += 1; res.solver_s += time.time() - t0
     return r
